@@ -201,8 +201,45 @@ def misc(rng, variant):
     return b.prog('misc')
 
 
+def def_time(rng, variant):
+    """reads performed by the enclosing function while a nested def / lambda / class statement is executed: default values,
+    keyword-only defaults, parameter annotations, decorators, class bases / keywords / body; nothing reads the variable afterwards"""
+    b = _B(rng)
+    _head(b)
+    b.features.add('def_time_reads')
+    wrap = variant % 3
+    if wrap == 0:
+        b.e(1, 'if d():'); b.e(2, 'x = tr(%d, c)' % b.slot())
+    elif wrap == 1:
+        b.e(1, 'for i in n():'); b.e(2, 'x = tr(%d, i)' % b.slot())
+    v = (variant // 3) % 9
+    if v == 0:
+        b.e(1, 'def g(p=x):'); b.e(2, 'return p'); b.e(1, 'y = g()')
+    elif v == 1:
+        b.e(1, 'def g(*, p=x):'); b.e(2, 'return p'); b.e(1, 'y = g()')
+    elif v == 2:
+        b.e(1, 'def g(p: x = 0):'); b.e(2, 'return p'); b.e(1, 'y = g.__annotations__["p"]')
+    elif v == 3:
+        b.e(1, 'def dec(q):'); b.e(2, 'def w(fn):'); b.e(3, 'return lambda: q'); b.e(2, 'return w')
+        b.e(1, '@dec(x)'); b.e(1, 'def g():'); b.e(2, 'return 0'); b.e(1, 'y = g()')
+    elif v == 4:
+        b.e(1, 'k = lambda p=x: p'); b.e(1, 'y = k()')
+    elif v == 5:
+        b.e(1, 'class K(object):'); b.e(2, 'z = x'); b.e(1, 'y = K.z')
+    elif v == 6:
+        b.e(1, 'class K(tuple if x else list):'); b.e(2, 'pass'); b.e(1, 'y = K.__bases__[0].__name__')
+    elif v == 7:
+        b.e(1, 'def dec(q):'); b.e(2, 'def w(cls):'); b.e(3, 'cls.q = q'); b.e(3, 'return cls'); b.e(2, 'return w')
+        b.e(1, '@dec(x)'); b.e(1, 'class K(object):'); b.e(2, 'pass'); b.e(1, 'y = K.q')
+    else:
+        b.e(1, 'class K(object):'); b.e(2, 'z = x'); b.e(2, 'u = z + 1'); b.e(1, 'y = K.u')
+    b.e(1, 'return tr(0, y)')
+    return b.prog('def_time_reads')
+
+
 FAMILIES = [('zero_trip_for', zero_trip, 30), ('closure', closure, 60), ('lambda_later', lambda_later, 6),
-            ('closure_binds_local', closure_binds, 12), ('misc', misc, 18)]
+            ('closure_binds_local', closure_binds, 12), ('misc', misc, 18),
+            ('def_time_reads', def_time, 27)]
 
 
 def scenario_programs(rng, scale=1):
